@@ -66,6 +66,14 @@ def judge(pid, viols, crashes, spec):
     for c in crashes:
         v = {"formula": "CRASH", "detail": c.get("banner", ""), "scenario": c.get("scenario"), "crash": c,
              "k": None, "trace_file": None, "trace": None}
+        if c.get("banner", "").startswith("WARNING: DATA RACE"):
+            v["formula"] = "RACE"
+            v["detail"] = "go-race-detector"
+            if spec.get("race") or pid in ("C02",):
+                mine.append(v)
+            else:
+                notes["RACE " + c.get("name", "")] = 1
+            continue
         hang = c.get("timeout") or c.get("banner", "") == props.HANG
         if hang:
             # the library stopped making progress with goroutines stuck (every goroutine of the
